@@ -112,7 +112,7 @@ type Path struct {
 	locs map[string]*Cell
 	spec *specState
 	failedAsserts int
-	nondetMaps map[*MapObj]bool
+	nondetMaps map[*MapObj]int
 	initBase int
 	inTimeNow bool
 	decided map[string]bool
@@ -1851,7 +1851,16 @@ func (p *Path) lookup(fr *Frame, x *ssa.Lookup) Value {
 
 func (p *Path) mapOrder(m *MapObj) []*mapEntry {
 	ents := m.liveEntries()
-	if !(p.mapOrderNondet || p.nondetMaps[m]) || len(ents) < 2 {
+	if k := p.nondetMaps[m]; k > 0 {
+		// a rotation drawn by the harness for this map
+		k = (k - 1) % len(max1(ents))
+		if len(ents) < 2 {
+			return ents
+		}
+		out := append([]*mapEntry{}, ents[k:]...)
+		return append(out, ents[:k]...)
+	}
+	if !p.mapOrderNondet || len(ents) < 2 {
 		return ents
 	}
 	if len(m.slots) > 8 {
@@ -2122,4 +2131,11 @@ func (p *Path) builtin(b *ssa.Builtin, args []Value, cc *ssa.CallCommon) Value {
 		return args[0]
 	}
 	panic(unsupported("builtin " + b.Name()))
+}
+
+func max1(e []*mapEntry) []*mapEntry {
+	if len(e) == 0 {
+		return make([]*mapEntry, 1)
+	}
+	return e
 }
